@@ -1278,22 +1278,21 @@ func (fx *FnExec) isNil(v Val) *Term {
 
 // bytesOf abstracts a byte sequence to a term of sort Bytes: rng(array, off, len).
 func (fx *FnExec) bytesOf(st *State, v CVal) *Term {
-	c := fx.c
 	bs := UnintSort("Bytes")
 	byteT := types.Typ[types.Uint8]
 	switch x := v.V.(type) {
 	case SliceV:
-		return c.App("rng", bs, fx.elemArray(st, byteT, x.Ref), x.Off, x.Len)
+		return fx.rngTerm(fx.elemArray(st, byteT, x.Ref), x.Off, x.Len)
 	case StrV:
-		return c.App("rng", bs, x.Arr, x.Off, x.Len)
+		return fx.rngTerm(x.Arr, x.Off, x.Len)
 	case PtrV:
 		if at, ok := under(x.Elem).(*types.Array); ok && x.Kind == PObj {
-			return c.App("rng", bs, fx.elemArray(st, at.Elem(), x.Ref), fx.bv64(0), fx.bv64(at.Len()))
+			return fx.rngTerm(fx.elemArray(st, at.Elem(), x.Ref), fx.bv64(0), fx.bv64(at.Len()))
 		}
 	case *Term:
 		if x.Sort == byteArr && v.T != nil {
 			if at, ok := under(v.T).(*types.Array); ok {
-				return c.App("rng", bs, x, fx.bv64(0), fx.bv64(at.Len()))
+				return fx.rngTerm(x, fx.bv64(0), fx.bv64(at.Len()))
 			}
 		}
 		if x.Sort == bs {
@@ -1478,4 +1477,50 @@ func fieldFuncSig(pkg *types.Package, tname, f string) *types.Signature {
 		}
 	}
 	return nil
+}
+
+// ---- abstract byte strings rng(array, off, len) and their stability under writes elsewhere
+
+type rngRec struct{ arr, off, ln *Term }
+
+// rngTerm builds rng(arr, off, len) and remembers it, so that a later write to the array
+// outside [off, off+len) can carry the abstract byte string over to the updated array.
+func (fx *FnExec) rngTerm(arr, off, ln *Term) *Term {
+	t := fx.c.App("rng", UnintSort("Bytes"), arr, off, ln)
+	if !t.open && !fx.noAssume {
+		if fx.rngSeen == nil {
+			fx.rngSeen = map[*Term]bool{}
+		}
+		if !fx.rngSeen[t] {
+			fx.rngSeen[t] = true
+			fx.rngs = append(fx.rngs, rngRec{arr, off, ln})
+		}
+	}
+	return t
+}
+
+// arrayUpdated: newArr is oldArr with only [wlo, wlo+wlen) possibly changed.  Every remembered
+// byte string over oldArr that lies outside the written region denotes the same byte string over newArr.
+func (fx *FnExec) arrayUpdated(oldArr, newArr, wlo, wlen *Term) {
+	if oldArr == newArr || len(fx.rngs) == 0 || oldArr.Sort != byteArr {
+		return
+	}
+	c := fx.c
+	n := len(fx.rngs)
+	added := 0
+	for i := 0; i < n && added < 64; i++ {
+		r := fx.rngs[i]
+		if r.arr != oldArr {
+			continue
+		}
+		nt := c.App("rng", UnintSort("Bytes"), newArr, r.off, r.ln)
+		ot := c.App("rng", UnintSort("Bytes"), oldArr, r.off, r.ln)
+		disjoint := c.Or(c.BVCmp("bvsle", c.BVBin("bvadd", r.off, r.ln), wlo), c.BVCmp("bvsle", c.BVBin("bvadd", wlo, wlen), r.off))
+		fx.assumeGlobal(c.Implies(disjoint, c.Eq(nt, ot)))
+		if !fx.rngSeen[nt] {
+			fx.rngSeen[nt] = true
+			fx.rngs = append(fx.rngs, rngRec{newArr, r.off, r.ln})
+			added++
+		}
+	}
 }
